@@ -495,7 +495,8 @@ def state_census(ctx, rep, half, key_role_ctor, allowed_writers, state_field_cou
     """index / previous value of a half are written only by `new` (constants 0) and through the
     raw operation; nobody else in the crate stores to or mutably borrows them."""
     fb = ctx.fb
-    ws = field_writers(fb, half)
+    fc = util.faithful_clones(ctx)        # a proved field-for-field copy creates no new state
+    ws = [w for w in field_writers(fb, half) if w[0] not in fc]
     bad = [w for w in ws if w[1] in ("store", "mutborrow") and w[0] not in allowed_writers]
     rep.check(not bad, "state-writers", half, "field-census", "%d write/borrow sites, all in %s" % (len([w for w in ws if w[1] != 'mutborrow-whole']), sorted(allowed_writers)), "cipher state of %s is written outside its raw operation: %s" % (half, [(w[0], w[3]) for w in bad]))
     # every construction site (helpers extracted by a refactoring are seen at their call sites)
